@@ -117,24 +117,31 @@ def gen_nested_window(rng):
               "out": "v0"},
              {"op": "window", "in": ["v0"], "args": {"axis": 0, "w": rng.randint(2, 4), "reduce": rng.choice(["max", "min", "sum"])}, "out": "v1"},
              {"op": "window", "in": ["v1"], "args": {"axis": rng.choice([0, 1]), "w": rng.randint(2, 3), "reduce": rng.choice(["sum", "max"])}, "out": "v2"}]
-    hist = [{"ev": "build", "var": "v1"}]
+    x, cons = "v1", "v2"
+    if rng.random() < 0.5:
+        # x is the NESTED reduction (optimized grid finer than the advertised one); its consumer is a tree
+        # reduction with a small fan-in, planned on x's advertised chunks
+        steps.append({"op": "reduction", "in": ["v2"], "args": {"f": rng.choice(["min", "max", "sum"]), "axis": rng.choice([0, 1]),
+                                                              "split_every": rng.choice([2, 3])}, "out": "v3"})
+        x, cons = "v2", "v3"
+    hist = [{"ev": "build", "var": x}]
     returned, k = [], 0
     for e in rng.sample(["persist:method", "optimize", "persist:dask", "doptimize"], rng.randint(1, 3)):
         k += 1
         if e.startswith("persist:"):
-            hist.append(dict({"ev": "persist", "var": "v1", "entry": e.split(":")[1], "out": f"p{k}"}, **H.rand_sched(rng)))
+            hist.append(dict({"ev": "persist", "var": x, "entry": e.split(":")[1], "out": f"p{k}"}, **H.rand_sched(rng)))
             returned.append(f"p{k}")
         elif e == "optimize":
-            hist.append({"ev": "optimize", "var": "v1", "out": f"o{k}"})
+            hist.append({"ev": "optimize", "var": x, "out": f"o{k}"})
             returned.append(f"o{k}")
         else:
-            hist.append({"ev": "doptimize", "var": "v1", "out": f"d{k}"})
+            hist.append({"ev": "doptimize", "var": x, "out": f"d{k}"})
             returned.append(f"d{k}")
-    for s_ in ["v1"] + returned:
+    for s_ in [x] + returned:
         k += 1
-        hist.append({"ev": "derive", "as": "v2", "subst": {"v1": s_}, "out": f"f{k}"})
+        hist.append({"ev": "derive", "as": cons, "subst": {x: s_}, "out": f"f{k}"})
         hist.append(dict({"ev": "compute", "var": f"f{k}", "entry": "method"}, **H.rand_sched(rng)))
-    return {"scribble": False, "recipe": {"sources": srcs, "generators": {}, "steps": steps}, "x": "v1", "targets": ["v1", "v2"], "history": hist}
+    return {"scribble": False, "recipe": {"sources": srcs, "generators": {}, "steps": steps}, "x": x, "targets": [x, cons], "history": hist}
 
 
 def gen(rng, tier):
